@@ -3,7 +3,7 @@
     an arbitrary stream of chunks; what is proved is the bound on the bytes MATERIALISED and the accept/reject rule.
     Partial by nature: the allocator and compress/flate are runtime facts, measured by the harness (TotalAlloc around
     one ServeHTTP for payloads inflating to 1 MiB .. 1 GiB), not modelled. *)
-From Saml Require Import Base.Bytes Idp.FactTypes Gen.Facts Core.Inflate.
+From Saml Require Import Base.Bytes Idp.FactTypes Gen.Facts Core.Inflate Codec.Base64 Core.WireCodec Core.DecodeVia Idp.Sso Proofs.SsoProofs Proofs.SsoAccept Proofs.SsoCodec.
 Open Scope Z_scope.
 
 Theorem C14_bounded : forall cap chunks, 0 <= cap ->
@@ -32,6 +32,20 @@ Proof. exact inflate_structure. Qed.
 Example C14_example : inflate_decode 10 [4; 4; 4; 1000000] = None /\ read_limited 11 [4; 4; 4; 1000000] = 11 /\ inflate_decode 10 [4; 4] = Some 8.
 Proof. repeat split; vm_compute; reflexivity. Qed.
 
+(** ... and is not accepted: with DecodeAuthNRequest = InflateAndDecode + parser (C06_decode_from_source), a request whose
+    DEFLATE payload inflates to more than the cap never ends in the login redirect, whatever it contains *)
+Theorem C14_oversized_not_accepted : forall e_form inflate cap parse lookup verify_redirect verify_post instant_of now create want_signed sso_locs entity_id cert_ok
+  c f raw d st id, has_tags c tags6 = true -> e_form = Some f ->
+  f_enc f = c_EncodingDeflate -> b64_decode (f_req f) = Some raw -> inflate raw = Some d -> (Z.of_nat (length d) > cap) ->
+  sso_handler e_form (decode_via authn inflate cap parse) lookup verify_redirect verify_post instant_of now create want_signed sso_locs entity_id cert_ok c <> Done st [RLogin id].
+Proof. exact sso_oversized_refused. Qed.
+Theorem C14_oversized_decode_fails : forall (A : Type) inflate cap (parse : bytes -> option A) message raw d,
+  b64_decode message = Some raw -> inflate raw = Some d -> (Z.of_nat (length d) > cap) ->
+  decode_via A inflate cap parse c_EncodingDeflate message = None.
+Proof. exact decode_via_oversized. Qed.
+
 Print Assumptions C14_bounded.
 Print Assumptions C14_independent_of_ratio.
 Print Assumptions C14_structure.
+Print Assumptions C14_oversized_not_accepted.
+Print Assumptions C14_oversized_decode_fails.
